@@ -8,6 +8,7 @@ PROP = 'C09'
 LEAN_TARGETS = ['Props.C09']
 REQUIRED_THEOREMS = ['Props.C09.softmax_shift_range', 'Props.C09.sigmoid_range', 'Props.C09.exp_100_overflows_f32',
                      'Props.C09.log_softmax_exact', 'Props.C09.bce_logits_shift_nonpos']
+REQUIRED_THEOREMS += ['Props.C09.' + t for t in ['src_sigmoid_formula', 'src_sigmoid_backward_formula', 'src_tanh_formula', 'src_tanh_backward_formula', 'src_selu_backward_clamped', 'src_bce_logits_formula', 'src_bce_logits_backward_formula']]   # ties to cpu_ops.py as read on this run
 RULE = ('sigmoid, tanh, selu, softmax, log_softmax, cross-entropy, BCE-with-logits, forward and backward, at float32 and float64, on '
         'the magnitude table {0, +-1, +-20, +-88, +-89, +-100, +-1e3, +-1e4} (single values and rows mixing them, i.e. spreads up to '
         '2e4, any label / target) plus random rows, plus batches of more than 1 MiB whose rows sit at levels spread over the table (the row-wise ops are run on the repeated rows, the model on one copy); the model kernels are executed at Float32 and Float and compared with the '
@@ -54,6 +55,12 @@ def line(c):
     return (f"stab {c['op']} {c['dt']} {c['dim']} {show_ints(c['labels'])} {show_ints(c['shape'])} {show_floats(f32(c['x']))} "
             f"{show_ints(c['gshape'])} {show_floats(f32(c['g']))} {show_ints(c['ashape'])} {show_floats(f32(c['aux']))}")
 
+
+
+def extract():
+    """the stability-critical formulas are re-read from cpu_ops.py (Generated/KernelFormulas.lean); the src_* theorems are re-checked by the build"""
+    import formulas
+    return formulas.write()[0]
 
 def cases(rng, tier):
     out = []
